@@ -189,6 +189,10 @@ func Gen(r *rand.Rand, p Profile) *Workload {
 	for d := 0; d < p.DupRequests; d++ {
 		at := time.Duration(2+r.Intn(p.Spread+30)) * time.Second
 		pick, back := r.Intn(1<<30), r.Intn(4)
+		ahead := 0
+		if r.Intn(5) == 0 {
+			ahead = 1 + r.Intn(3) // the clock was stepped back by a few seconds after the cron worker had enqueued this request
+		}
 		wl.Ops = append(wl.Ops, UserOp{At: at, Name: "re-deliver a schedule request", Do: func(w *World) {
 			// a duplicate or out-of-order re-delivery of a schedule request that was made before
 			q, reqs := w.CronQueue(), w.Mon.CronRequests()
@@ -199,8 +203,13 @@ func Gen(r *rand.Rand, p Profile) *Workload {
 			if back == 3 || i < 0 {
 				i = pick % len(reqs)
 			}
+			key := reqs[i].Key
+			if k := strings.LastIndex(key, "."); ahead > 0 && k > 0 {
+				// the same JobConfig, a schedule time that is (by this process's clock) still a few seconds away
+				key = fmt.Sprintf("%s.%d", key[:k], w.Clk.Now().Add(time.Duration(ahead)*time.Second).Unix())
+			}
 			w.Mon.Injecting = true
-			q.Add(reqs[i].Key)
+			q.Add(key)
 			w.Mon.Injecting = false
 		}})
 	}
